@@ -28,6 +28,7 @@ type trCase struct {
 	Seed    int64  `json:"seed"`
 	Slack   int    `json:"slack"` // extra bytes in the destination beyond MaxEncodedLen (0 = exactly as first allocated by the pipeline)
 	Jobs    uint   `json:"jobs"`
+	BMul    int    `json:"bmul,omitempty"` // > 1: the stream's block size is this many times the tightest legal one (a short last block: the inverse gets a much larger buffer than the block)
 }
 
 type trResult struct {
@@ -153,6 +154,9 @@ func runTrCase(c *trCase) (res trResult) {
 	x := gen.Make(c.Shape, c.Size, c.Seed)
 	res.InLen = len(x)
 	B := legalBlockSize(len(x))
+	if c.BMul > 1 {
+		B = min(B*uint(c.BMul), 64<<20)
+	}
 	chain := c.T
 	if c.Pre != "" && c.Pre != "magic" {
 		chain = c.Pre + "+" + c.T
@@ -308,7 +312,7 @@ func init() {
 
 func c13(run *core.Run, replay string) {
 	run.SetRule("each transform is built with the parameter map the stream layer builds, optionally after the block-magic hint or after a real earlier stage ran on the same map (hints are never fabricated), " +
-		"Forward into a destination of exactly MaxEncodedLen (or with slack), then Inverse into the buffer size the decompressor provides for the tightest legal block size; " +
+		"Forward into a destination of exactly MaxEncodedLen (or with slack), then Inverse into the buffer size the decompressor provides for the tightest legal block size - and, for short-last-block cases, for block sizes 2..200 times larger; " +
 		"non-trivial = the stage actually applied (skip flag clear) on >= 16 bytes and the inverse was checked; distinct = (transform, pre-stage, entropy variant, shape, size, slack)")
 	run.Assume("magic-number classification of encodingTask.encode re-implemented from internal/Magic.go (only selects which hints are tried)")
 	if replay != "" {
@@ -425,6 +429,36 @@ func c13(run *core.Run, replay string) {
 			}
 		}
 	}
+	// a block much shorter than the stream's block size (the last block of a stream, or a small input under a large -b): the
+	// forward side sees the real block length, the inverse side a buffer sized from the block size
+	for ti, t := range kz.Transforms {
+		shs := affinity[t]
+		if len(shs) == 0 {
+			shs = []string{"text", "html", "repeatblocks"}
+		}
+		for hi, sh := range shs {
+			if hi >= 3 {
+				break
+			}
+			for si, sz := range []int{5000, 70000, 600000} {
+				for mi, mul := range []int{3, 16, 200} {
+					if !run.Thorough() && (ti+hi+si+mi)%2 == 1 {
+						continue
+					}
+					if (t == "BWT" || t == "BWTS") && sz > 100000 && mi != 0 {
+						continue
+					}
+					add(trCase{T: t, Entropy: entVariants(t)[(si+mi)%len(entVariants(t))], Shape: sh, Size: sz + 3*mi, Seed: run.Seed*17 + int64(si), BMul: mul})
+				}
+			}
+		}
+	}
+	for si, sz := range []int{1 << 20, 1500000, 2500000} {
+		for _, ent := range entVariants("TEXT") {
+			add(trCase{T: "TEXT", Entropy: ent, Shape: []string{"wordlist", "bigvocab", "wordlist"}[si], Size: sz, Seed: run.Seed + int64(si), BMul: []int{4, 16, 2}[si]})
+			add(trCase{T: "TEXT", Entropy: ent, Shape: "wordlist", Size: sz / 2, Seed: run.Seed + int64(si), BMul: 1 + si})
+		}
+	}
 	// executable-looking blocks with garbage headers: each instance draws different header fields, so many seeds per shape
 	nbogus := run.Pick(120, 1500)
 	for i := 0; i < nbogus; i++ {
@@ -479,7 +513,10 @@ func c13(run *core.Run, replay string) {
 		if tr.Applied {
 			run.Count("applied_"+c.T, 1)
 			if tr.InLen >= 16 && tr.SkippedInv == "" {
-				run.Nontrivial(fmt.Sprintf("%s|%s|%s|%s|%d|%d", c.T, c.Pre, c.Entropy, c.Shape, c.Size, c.Slack))
+				run.Nontrivial(fmt.Sprintf("%s|%s|%s|%s|%d|%d|%d", c.T, c.Pre, c.Entropy, c.Shape, c.Size, c.Slack, c.BMul))
+				if c.BMul > 1 {
+					run.Count("applied_in_a_block_shorter_than_the_block_size", 1)
+				}
 			}
 			run.Seen("applied_transform_x_shape", c.T+"/"+c.Shape)
 		} else {
